@@ -21,7 +21,7 @@ CONSTANTS
   Prefix <- MCPrefix
   MaxHavoc = 0
   KeepRec = FALSE
-  NestedTrigs <- MCTrigs
+  NestedTrigs = {}
   NestedHx = {}
   EvMayHold = FALSE
 INVARIANT NoBad
